@@ -52,9 +52,22 @@ def job(kind: str, name: str, patch: Path | None, props: list[str]) -> dict:
         return {"kind": kind, "name": name, "error": str(err), "res": {}}
     try:
         res = {}
+        if kind == "clean":
+            # the registered command itself, one process per property
+            for p in props:
+                rc, out = run_check(p, str(tmp / "r"), str(tmp / "ev"))
+                lines = [l for l in out.splitlines() if (": R" in l and " in " in l) or l.startswith("ANALYSIS-ERROR")]
+                res[p] = (rc, lines[:3])
+            return {"kind": kind, "name": name, "res": res}
+        # patched trees: all requested properties in one process (tools/fastcheck.py, same verdicts)
+        env = dict(os.environ, VERIF_REPO=str(tmp / "r"))
+        pr = subprocess.run([PY, str(VERIF / "tools" / "fastcheck.py"), *props], capture_output=True, text=True, env=env, cwd=str(VERIF))
+        try:
+            data = json.loads(pr.stdout.strip().splitlines()[-1])
+        except Exception:  # noqa: BLE001
+            data = {p: [2, ["ANALYSIS-ERROR fastcheck failed: " + (pr.stderr.strip().splitlines() or ["?"])[-1][:200]]] for p in props}
         for p in props:
-            rc, out = run_check(p, str(tmp / "r"), str(tmp / "ev"))
-            lines = [l for l in out.splitlines() if (": R" in l and " in " in l) or l.startswith("ANALYSIS-ERROR")]
+            rc, lines = data.get(p, [2, ["ANALYSIS-ERROR no verdict"]])
             res[p] = (rc, lines[:3])
         return {"kind": kind, "name": name, "res": res}
     finally:
